@@ -92,7 +92,7 @@ theorem OQInv.preserved : Preserved OQInv where
   same hs h := OQInv.of_eq hs.2.2.2.1 h
   tick _ h := h
   finish w p v st h := OQInv.of_eq (by simp) h
-  clear w p f _ _ h := OQInv.of_eq (by simp) h
+  clear w p f _ _ _ h := OQInv.of_eq (by simp) h
   exec w p c _ h := by
     by_cases hm : (cmdMask c).oqs = false
     · exact OQInv.of_eq ((execCmd_fp w p c).2.2.2.1 hm) h
